@@ -92,3 +92,39 @@ def register(reg):
                  ('shape', 'value.shape == mask.shape')],
         mutants=[('inverse_mask = np.logical_not(mask)', 'inverse_mask = np.logical_and(mask, mask)')],
     ))
+    register_pruning(reg)
+
+
+def register_pruning(reg):
+    """C04 "keeps exactly those [connected components] with at least npixels pixels": the body of
+    the pruning loop of _detect_sources for one labelled component (what the labels are is
+    scipy's business).  The component is dropped -- every pixel carrying its label set to 0,
+    nothing else touched, the iteration ended -- exactly when the number of pixels carrying the
+    label inside its slice is below npixels; otherwise the image is left as it was."""
+    pre = ['0 <= slc[0].start', 'slc[0].start < slc[0].stop', 'slc[0].stop <= segment_img.shape[0]',
+           '0 <= slc[1].start', 'slc[1].start < slc[1].stop', 'slc[1].stop <= segment_img.shape[1]',
+           'label >= 1']
+    box = '(0, segment_img.shape[0]), (0, segment_img.shape[1])'
+    inslc = ('i >= slc[0].start and i < slc[0].stop and j >= slc[1].start and j < slc[1].stop')
+    cnt = 'np.count_nonzero(old_segment_img[slc] == label)'
+    reg.add(Contract(
+        target=D + '_detect_sources', props=['C04', 'C06'], tag='pruning-one-component',
+        block=('cutout', 'cutout'),
+        params={'segment_img': ('arr', 2, 'int', 'nonempty'), 'slc': 'slice2', 'label': 'int',
+                'npixels': 'pos'},
+        requires=pre,
+        ensures=[
+            ('dropped-iff-fewer-than-npixels-pixels-carry-the-label',
+             f'iff(leaves_by_continue, {cnt} < npixels)'),
+            ('a-dropped-component-is-zeroed-and-nothing-else-changes',
+             f'implies(leaves_by_continue, forall(lambda i, j: segment_img_input[i, j] == '
+             f'ite(({inslc}) and old_segment_img[i, j] == label, 0, old_segment_img[i, j]), {box}))'),
+            ('a-kept-component-leaves-the-image-as-it-was',
+             f'implies(not leaves_by_continue, forall(lambda i, j: segment_img_input[i, j] == '
+             f'old_segment_img[i, j], {box}))'),
+        ],
+        mutants=[('if np.count_nonzero(segment_mask) < npixels:', 'if np.count_nonzero(segment_mask) <= npixels:'),
+                 ('segment_mask = (cutout == label)', 'segment_mask = (cutout >= label)'),
+                 ('cutout[segment_mask] = 0', 'cutout[segment_mask] = label'),
+                 ('if np.count_nonzero(segment_mask) < npixels:', 'if np.count_nonzero(cutout) < npixels:')],
+    ))
